@@ -125,6 +125,7 @@ func TestC08Engines(t *testing.T) {
 	rec := NewRecorder("C08", "C08Engines", "rapid: both engines with a scripted driver (retryable noise at every slot) and a cancellation instant drawn over the run; oracle: elapsed <= bound; after cancellation the engine returns ctx.Err() within poll + send delay; non-trivial = cancelled strictly inside the run or >= 20 retryable results")
 	RunProp(t, rec, func(rt *rapid.T) *EngineCase {
 		c := genEngineCase(rt, "")
+		c.SendLagNs = 0 // the stated bound assumes prompt sends
 		n := int64(c.MaxTTL - c.MinTTL + 1)
 		total := c.TimeoutNs + c.DelayNs*n
 		if c.Engine == "serial" {
@@ -379,3 +380,71 @@ func TestC08Request(t *testing.T) {
 		return ds
 	})
 }
+
+// TestC08SharedFetcherRealTime: the bound of a run is computable from ITS parameters also when several runs share
+// one public-IP fetcher (the HTTP server keeps a single one) and the providers stall. Lock contention cannot be
+// hosted on the virtual clock (a goroutine waiting for a mutex is not durably blocked), so this runs on the real
+// clock: every provider hangs until the request's context ends, three callers start together on a cold cache.
+func TestC08SharedFetcherRealTime(t *testing.T) {
+	rec := NewRecorder("C08", "C08SharedFetcherRealTime", "real clock: one PublicIPFetcher over a transport that never answers (each of the 5 providers uses up its 2 s budget), 3 callers starting together on a cold cache plus one caller whose context is cancelled after 300 ms; oracle: every caller is back within the per-lookup bound (5 x 2 s) + 2 s of slack measured from its own start, the cancelled one within 2 s of its cancellation; non-trivial always")
+	rec.Assumptions = append(rec.Assumptions, "real time: 2 s of slack absorb scheduling noise; a caller queued behind another caller's lookup returns after a multiple of the bound")
+	rec.Exhaustive = true
+	type shared struct {
+		Callers int `json:"callers"`
+	}
+	RunCases(t, rec, func(yield func(*shared) bool) { yield(&shared{Callers: 3}) }, func(t *testing.T, c *shared, rec *Recorder) []Diff {
+		reqMu.Lock()
+		defer reqMu.Unlock()
+		cache.Cache = gocache.New(5*time.Minute, 0)
+		nProviders := len(publicip.VerifIPCheckers())
+		bound := time.Duration(nProviders)*2*time.Second + 2*time.Second
+		hang := roundTripFunc(func(r *http.Request) (*http.Response, error) {
+			<-r.Context().Done()
+			return nil, r.Context().Err()
+		})
+		f := publicip.NewPublicIPFetcherWithClient(&http.Client{Transport: hang})
+		type ret struct {
+			who     string
+			elapsed time.Duration
+		}
+		done := make(chan ret, c.Callers+1)
+		start := time.Now()
+		for i := 0; i < c.Callers; i++ {
+			go func(i int) {
+				f.GetIP(context.Background())
+				done <- ret{fmt.Sprintf("caller %d", i), time.Since(start)}
+			}(i)
+		}
+		cctx, cancel := context.WithCancel(context.Background())
+		go func() {
+			time.Sleep(300 * time.Millisecond)
+			cancel()
+		}()
+		go func() {
+			f.GetIP(cctx)
+			done <- ret{"cancelled caller", time.Since(start)}
+		}()
+		var ds []Diff
+		got := 0
+		timer := time.NewTimer(bound)
+		defer timer.Stop()
+		for got < c.Callers+1 {
+			select {
+			case r := <-done:
+				got++
+				if r.who == "cancelled caller" && r.elapsed > 300*time.Millisecond+2*time.Second {
+					ds = append(ds, Diff{"C08", "cancel-not-prompt", fmt.Sprintf("a public-IP lookup whose context was cancelled after 300 ms returned after %v", r.elapsed.Round(time.Millisecond))})
+				}
+			case <-timer.C:
+				ds = append(ds, Diff{"C08", "lookup-exceeds-own-bound", fmt.Sprintf("%d of %d concurrent public-IP lookups on one fetcher were not back %v after they started (per-lookup bound: %d providers x 2 s, + 2 s slack): a lookup waits for other callers' lookups", c.Callers+1-got, c.Callers+1, bound, nProviders)})
+				got = c.Callers + 1
+			}
+		}
+		rec.CaseEnumerated(true, map[string]any{"callers": c.Callers, "elapsed_s": time.Since(start).Seconds()})
+		return ds
+	})
+}
+
+type roundTripFunc func(*http.Request) (*http.Response, error)
+
+func (f roundTripFunc) RoundTrip(r *http.Request) (*http.Response, error) { return f(r) }
